@@ -2,6 +2,7 @@ import ClaripyProofs.Lemmas.AST.RulesSound2
 import ClaripyProofs.Lemmas.AST.FoldSound
 import ClaripyProofs.Lemmas.AST.ACNormSoundB
 import ClaripyProofs.Lemmas.AST.BitsSound
+import ClaripyProofs.Lemmas.AST.CmpSound
 /-!
 # C01 — bit-vector and Boolean expressions mean exactly what the written operations say
 
@@ -92,6 +93,17 @@ example : bitsEquiv (.app (.extract 11 4) [.app .concat [.bvs "x" 8, .bvs "y" 8]
     (.app .concat [.app (.extract 3 0) [.bvs "x" 8], .app (.extract 7 4) [.bvs "y" 8]]) = true := by decide
 example : bitsEquiv (.app (.extract 7 0) [.app (.zeroExt 8) [.bvs "x" 8]]) (.bvs "x" 8) = true := by decide
 example : bitsEquiv (.app (.extract 7 0) [.app .concat [.bvs "x" 8, .bvs "y" 8]]) (.bvs "x" 8) = false := by decide
+
+/-- Comparison simplifiers on bit-vector (dis)equalities (masks, zero extensions, literal bit mismatches: `(x & 1) == 1 ⇒
+x[0:0] == 1`, `ZeroExt(2, x) != c ⇒ x != c'`, `Concat(0, x) == c ⇒ false`): a rewrite accepted by the per-bit normal-form check
+`cmpEquiv` preserves the truth value of a well-typed comparison.  Every width, every assignment. -/
+theorem C01_cmp_rewrite_sound (lhs rhs : Expr) (h : cmpEquiv lhs rhs = true) (env : Env) (v : Bool)
+    (hl : eval env lhs = .bool v) : eval env rhs = eval env lhs := cmpEquiv_sound lhs rhs h env v hl
+
+example : cmpEquiv (.app .eq [.app .band [.bvs "x" 2, .bvv 1 2], .bvv 1 2]) (.app .eq [.app (.extract 0 0) [.bvs "x" 2], .bvv 1 1]) = true := by
+  decide
+example : cmpEquiv (.app .ne [.app .band [.bvs "x" 4, .bvv 3 4], .bvv 6 4]) (.boolv true) = true := by decide
+example : cmpEquiv (.app .eq [.bvs "x" 4, .bvv 6 4]) (.app .eq [.bvs "x" 4, .bvv 7 4]) = false := by decide
 
 /-- the check is not vacuous: it accepts `(a ^ b) ^ (b ^ a) ⇒ 0` and `(a + 3) + (5 + b) ⇒ a + b + 8`, and rejects `a + b ⇒ a + c` -/
 example : acEquiv .bxor 8 (.app .bxor [.app .bxor [.bvs "a" 8, .bvs "b" 8], .app .bxor [.bvs "b" 8, .bvs "a" 8]]) (.bvv 0 8) = true := by
